@@ -29,7 +29,7 @@ func zzIsInt[E zzNumber]() bool {
 func c03Run[E zzverif.Scalar](v *zzverif.T, mustCompute bool) (xa, xb []E, outShape []int, out tensor.Tensor, ok bool) {
 	op := v.CStr("op")
 	sa, sb := v.CInts("a"), v.CInts("b")
-	da := zzverif.Syms[E](v, "a", zzverif.Prod(sa))
+	da := zzverif.Data[E](v, "a", zzverif.Prod(sa))
 	A := zzverif.NewTensor(da, sa)
 	var db []E
 	var B tensor.Tensor
@@ -37,7 +37,7 @@ func c03Run[E zzverif.Scalar](v *zzverif.T, mustCompute bool) (xa, xb []E, outSh
 		// the same tensor object wired to both inputs
 		db, sb, B = da, sa, A
 	} else {
-		db = zzverif.Syms[E](v, "b", zzverif.Prod(sb))
+		db = zzverif.Data[E](v, "b", zzverif.Prod(sb))
 		B = zzverif.NewTensor(db, sb)
 	}
 	if op == "Div" {
